@@ -1,5 +1,5 @@
 """Life-cycle properties C06 C07 C08 C09 C10 C11 C12 (C17): families of behaviours of Scen.tla replayed on the real server."""
-import json
+import json, re
 import vlib
 from props import scen, refine
 
@@ -358,9 +358,37 @@ def run_families(run, names, cap):
     return scenarios, stats
 
 
+def action_coverage(run, quick):
+    """anti-vacuity: every action of Gldap.tla is taken in the bounded configurations (TLC -coverage on GldapCov.tla, which is
+    Gldap's next-state relation written as one disjunct per line); returns {action: states generated}"""
+    src = open(run.path("spec", "GldapCov.tla")).read().splitlines()
+    names = {}
+    for n, line in enumerate(src, 1):
+        m = re.search(r"alive /\\ (\w+)", line)
+        if m:
+            names[n] = m.group(1)
+    total = {a: 0 for a in names.values()}
+    for mode in ('"none"', '"server"'):
+        consts = {"Conns": '{"c1"}', "MaxReq": "1" if quick else "2", "FrameKinds": '{"op", "unbind", "starttls", "bad", "partial"}',
+                  "TLSMode": mode, "ReadTimeout": "TRUE"}
+        body = "SPECIFICATION CovSpec\nINVARIANTS TypeOK\n%sCHECK_DEADLOCK FALSE\n" % ("" if quick else "PROPERTIES SameRelation\n")
+        res = run.tlc("GldapCov", scen.cfg(consts, body), workers=8, timeout=1800, coverage=True)
+        if res.violations:
+            raise vlib.Infra("GldapCov: %s" % res.violations[0]["name"])
+        for m in re.finditer(r"<CovNext line \d+, col \d+ to line \d+, col \d+ of module GldapCov \((\d+) \d+ \d+ \d+\)>: (\d+):(\d+)", res.out):
+            a = names.get(int(m.group(1)))
+            if a:
+                total[a] += int(m.group(3))
+    never = sorted(a for a, n in total.items() if n == 0)
+    if never:
+        raise vlib.Infra("actions of Gldap.tla never taken in the bounded configurations (vacuous): %s" % never)
+    return total
+
+
 def check(run, pid, families, extra=None):
     q = run.quick()
     run.build()
+    acov = action_coverage(run, q)
     live = scen.design_check(run, LIVE, DESIGN_INV, properties=LIVE_PROPS, workers=4)
     mc = live if q else scen.design_check(run, DESIGN["thorough"], DESIGN_INV, workers=12, timeout=5400)
     scenarios, stats = run_families(run, families, cap=1200 if q else None)
@@ -392,7 +420,7 @@ def check(run, pid, families, extra=None):
            "samples": [{"cfg": sample["cfg"], "behaviour": [[e["a"], e["c"], e["i"], e["k"], e["hold"]] for e in sample["behaviour"]],
                         "trace": [[r["ev"], r["c"], r["i"], r["val"]] for r in rows if r.get("scen") == sample["id"]][:40]}],
            "evaluations": nenv, "distinct_nontrivial": len({json.dumps([e for e in s["behaviour"] if e["a"] in scen.ENV]) for s in scenarios if any(e["hold"] or e["a"] in ("stop", "close", "panic") for e in s["behaviour"])}),
-           "families": stats, "trace_events": len(rows), "scenarios_out_of_step_not_judged": len(late),
+           "families": stats, "trace_events": len(rows), "design_action_coverage": acov, "scenarios_out_of_step_not_judged": len(late),
            "refinement": {"traces": rn, "accepted": len(racc), "rejected": len(rrej), "not_modelled": rskip, "corrupted_traces_rejected": ntamper,
                           "rule": "GldapRefine.tla: per-goroutine event queues (gates of server.go/conn.go, handler entry/exit, OnClose, Stop/Run, client actions) "
                                   "interleaved by TLC under Gldap's actions; a trace is accepted when every event is consumed"},
